@@ -404,6 +404,20 @@ def decl_syntax_correspondence(ctx, model, toks_src, toks_out, src):
             want = "D " + D.collapse_stmts(spans[key]) + " | roundtrip-ok"
             if rep != want:
                 ctx.corr_problems.append(("decl-syntax", f"statements of {key[0]} {key[1]}: exppp `{want[2:]}` vs model `{rep[2:]}`", src)); return
+        # the whole token stream: Lean `schemaToks` of the source's declarations (in exppp's order) against everything exppp wrote
+        out_ast = D.parse_schema(toks_out)
+        try:
+            req = D.enc_schema(ast_s, out_ast, D.header_slices(toks_src))
+        except D.DeclError as ex:
+            ctx.hist("correspondence", f"whole schema: not encodable ({str(ex)[:60]})"); req = None
+        if req is not None:
+            rep = model.ask("schema " + req)
+            ctx.hist("correspondence", "declaration syntax: whole schema token stream")
+            want = "D " + D.collapse_schema(toks_out) + " | roundtrip-ok"
+            if rep != want:
+                a_, b_ = want.split(" "), rep.split(" ")
+                j = next((i for i in range(min(len(a_), len(b_))) if a_[i] != b_[i]), min(len(a_), len(b_)))
+                ctx.corr_problems.append(("decl-syntax", f"whole schema: token {j}: exppp `{' '.join(a_[max(0, j - 8):j + 6])}` vs model `{' '.join(b_[max(0, j - 8):j + 6])}`", src)); return
     except (D.DeclError, KeyError, IndexError) as ex:
         ctx.corr_problems.append(("decl-syntax", f"cannot compare declaration syntax: {type(ex).__name__} {ex}", src))
 
